@@ -442,6 +442,7 @@ impl Generator {
             font_index: 0,
             mode: Mode::Provider,
             rewrap_woff2: false,
+            small_stack: false,
             woff2_tail_blocks: 0,
             woff2_tail_claimed: false,
             woff2_meta_blocks: 0,
@@ -650,6 +651,9 @@ impl Generator {
                 trace.ops.push(Op::Outline { gid: g, tuple: None });
             }
         }
+        // the stack is one more resource seam: a few percent of the runs get what a spawned
+        // thread gets by default
+        trace.small_stack = rng.pct(6);
         if info.broken && trace.mode == Mode::Provider {
             trace.mode = Mode::Image;
             trace.faults.retain(|f| f.targets().iter().all(|t| t == "file"));
